@@ -149,6 +149,17 @@ func VerifC13Policy() {
 						break
 					}
 				}
+				if ro, rd := c13Rank(o.pat, nSeg-1), c13Rank(d.pat, nSeg-1); (nSeg == 0 || ro == rd) && !more {
+					// equal on every segment of the request: a pattern that ends with the request is
+					// more specific than one that goes on with a wildcard (covering the empty tail)
+					oExact := len(o.pat) == nSeg
+					dWild := len(d.pat) == nSeg+1 && d.pat[nSeg] == "*"
+					same := true
+					for k := 0; k < nSeg; k++ {
+						same = same && c13Rank(o.pat, k) == c13Rank(d.pat, k)
+					}
+					more = same && oExact && dWild
+				}
 				verifAssert(!more, "C13: the most specific declared pattern wins (literal over parameter over wildcard)")
 			}
 			// normalised URL: a declared pattern that matches the request
